@@ -74,6 +74,11 @@ SPEC = {
         "query entry points}, sync_project_inputs, project_inputs().expect, SourceRegistry::{ensure_file_id, remove}, "
         "Project::{set_source_text, remove_source}; tied by this run's comparison of the verif_views() hook after "
         "every operation",
+        "hand-written model DocLayer of crates/trust-lsp/src/state/documents.rs {open_document, index_document_impl, "
+        "update_document, close_document, remove_document, victim loop of enforce_memory_budget} over one URI "
+        "spelling per file and a client that sends didChange only for open documents; NOT tied by a hook comparison "
+        "(the server exposes the documents map through trust-lsp/verifDocumentText but not the project's sources): "
+        "its statement is what the fresh-server oracle tests on the sessions under a memory budget",
         "FxHashMap modelled as an association list (lawful finite map); its unspecified iteration order is "
         "irrelevant because every order-sensitive use in the code sorts by file id and the one unsorted loop "
         "(prepare_salsa_project) is proved to be a no-op on every reachable state",
@@ -107,7 +112,12 @@ MANIFEST = {
                   "the same answers for every semantics of the queries), c13_no_panic (the expect in project_inputs and "
                   "dangling SourceInputs are unreachable), c13_repeat (a repeated query changes nothing and returns the "
                   "same result, in every state), c13_queries_transparent (deleting a query from a history changes no "
-                  "later answer), c13_lazy_sync_only_when_empty. Each run executes the model and the real Database on "
+                  "later answer), c13_lazy_sync_only_when_empty; for the LSP document layer's own bookkeeping (documents "
+                  "map next to the project sources, incl. evictions under [indexing] memory_budget_mb with ANY choice of "
+                  "closed victims): c13_doclayer_in_step (the project holds a text for a key exactly when a document is "
+                  "held, and it is the document's content), c13_doclayer_deleted_is_gone (after the delete event the file "
+                  "is out of the analysis, whatever was evicted before), c13_doclayer_evict_keeps_open. "
+                  "Each run executes the model and the real Database on "
                   "the same generated histories and compares the hook views after every operation, and judges every "
                   "real answer (diagnostics, analysis, symbol table, expression type, expression id) against a "
                   "brand-new Database loaded with the final texts (in random order), against a repeated query, and for "
@@ -131,13 +141,15 @@ MANIFEST = {
                   "Third layer (crates/trust-lsp/src/state/documents.rs, an anchor file): TESTED only, by the fresh-server "
                   "oracle over stdio; its rename is modelled at the Project layer (projRename = remove old, remove new, set "
                   "new, on canonical keys) and proved: c13_project_view_rename (view theorem over set/remove/query/rename), "
-                  "c13_alias_rename_keeps_text. Not modelled there: the documents map, is_open, ensure_document, the index "
+                  "c13_alias_rename_keeps_text; the documents map with is_open and the budget evictions is modelled separately "
+                  "(DocLayer, one URI spelling per file: proved in step with the project sources, not tied by a hook). "
+                  "Not modelled there: ensure_document, the index "
                   "cache, URI canonicalisation - where the open known finding C13-lsp-symlink-stale-key lives (a file known "
                   "through a symbolic link keeps its symbols in the project after it is deleted or renamed away: the key is "
                   "recomputed from a path that can no longer be canonicalised); generated histories rename such a file back "
                   "to its canonical URI first, the witness is replayed on every run. Closing a dirty buffer and deleting an "
                   "open file are not generated (C14 covers the document text); every disk change is reported by the watcher. "
-                  "Memory budget (enforce_memory_budget): TESTED only; the statement tested is 'the analysis is that of a "
+                  "Memory budget (enforce_memory_budget): the statement proved for DocLayer and TESTED on the server is 'the analysis is that of a "
                   "brand-new server on exactly the documents the layer holds', i.e. documents map and project sources stay "
                   "in step through evictions, reloads and deletions (which files are evicted is LRU policy and not judged). "
                   "Round-3 additions at the Database layer (all TESTED by the fresh-database oracle, not modelled): salsa's "
@@ -432,7 +444,9 @@ def extra(ctx):
                             continue
                     proj["differs_from_fresh_same_ids"] += 1
                     fails.append({"case": c.n, "seed": ctx["seed"], "tier": ctx["tier"], "layer": "Project",
-                                  "what": "panic / repeat / answer differs from a fresh project with the same id order",
+                                  "what": ("the operation killed the analysis process (abort / stack overflow / hang)"
+                                           if detail.get("panic", "").startswith("process died") else
+                                           "panic / repeat / answer differs from a fresh project with the same id order"),
                                   "query": l[3:], "history": _history(c, i), "answers": detail})
                 elif bad_key:
                     proj["differs_from_fresh_key_order"] += 1
